@@ -135,7 +135,8 @@ FUNC1 = {
     "log": ("pos", np.log, lambda u: 1 / u, _iv_mono(math.log), "s"),
     "sqrt": ("pos", np.sqrt, lambda u: 0.5 / np.sqrt(u), _iv_mono(math.sqrt), "s"),
     "cbrt": ("pos", np.cbrt, lambda u: np.cbrt(u) / (3 * u), _iv_mono(lambda v: v ** (1 / 3)), "s"),
-    "Abs": ("any", np.abs, np.sign, _iv_abs, ""),
+    # (sensitivity 1 also AT zero: |0.07 - 0.07000000000000001| is 0 in floating point and 3e-18 for sympy)
+    "Abs": ("any", np.abs, lambda u: np.where(np.asarray(u) >= 0, 1.0, -1.0), _iv_abs, ""),
     "floor": ("any", np.floor, None, _iv_mono(math.floor), "j"),
     "ceiling": ("any", np.ceil, None, _iv_mono(math.ceil), "j"),
     "sec": ("tan", lambda u: 1 / np.cos(u), lambda u: np.sin(u) / np.cos(u) ** 2, _iv_sec, "s"),
@@ -1222,7 +1223,9 @@ class Evaluator:
                 else:
                     self._mark(near)
                 v = a.v - b.v * fq
-                return self._comb(v, [a, b], [np.ones_like(q), -fq])
+                # (the result is only defined to eps*|b|: rewriting the dividend by whole multiples of the divisor
+                # is exact algebra - sympy does it - but costs that much; thorough tier, numba route)
+                return self._comb(v, [a, b], [np.ones_like(q), -fq], extraE=np.abs(b.v))
             raise DomainBug(name)
         if k == "heav":
             a = self.ev(ast[1])
